@@ -119,6 +119,14 @@ def extra_image(src, kind):
             for i in range(6):
                 cmds += ["write %s p%d" % (hf["small"], i), "sif p%d size 4096" % i, "fallocate p%d 1 3" % i]
             cmds += ["write %s plain" % hf["mid"], "mkdir d", "write %s d/q" % hf["small"], "sif d/q size 8192", "fallocate d/q 1 6"]
+        elif kind == "casefold":
+            # a casefold filesystem whose directories are NOT marked +F: names that differ only by case are different files
+            opts = ["-t", "ext4", "-b", "1024", "-O", "casefold", "-E", "nodiscard,lazy_itable_init=0,lazy_journal_init=0"]
+            cmds += ["mkdir small", "write %s small/Foo" % hf["small"], "write %s small/foo" % hf["tiny"], "write %s small/FOO" % hf["mid"],
+                     "mkdir large"]
+            for j in range(120):
+                cmds += ["write /dev/null large/Name_%03d_%s" % (j, "x" * (j % 40)), "write /dev/null large/name_%03d_%s" % (j, "x" * (j % 40))]
+            cmds += ["mkdir folded", "set_inode_field folded flags 0x40080000", "write %s folded/Alpha" % hf["small"], "write %s folded/beta" % hf["tiny"]]
         else:
             opts = ["-t", "ext4", "-b", "1024", "-O", "bigalloc", "-C", "4096", "-E", "nodiscard,lazy_itable_init=0,lazy_journal_init=0"]
             for i, n in enumerate([16, 32, 12, 28, 20, 48, 15, 16]):
@@ -138,7 +146,7 @@ def extra_image(src, kind):
 
 
 EXTRA = [("prealloc", ["-fy", "-E", "bmap2extent"]), ("bigalloc_dense", ["-fyD"]), ("prealloc", ["-fyD"]), ("bigalloc_dense", ["-fy"]),
-         ("prealloc", ["-fy"]), ("bigalloc_dense", ["-fy", "-E", "bmap2extent"])]
+         ("prealloc", ["-fy"]), ("bigalloc_dense", ["-fy", "-E", "bmap2extent"]), ("casefold", ["-fyD"]), ("casefold", ["-fy"])]
 
 
 def healthy_case(src, mexe, idx, seed, tier):
@@ -184,7 +192,7 @@ def summary_case(src, idx, seed, tier):
     desc = corrupt.corrupt(base, img, r, nops=r.choice([1, 1, 2]), operators=SUMMARY_OPS)
     env = e2v.tool_env(src)
     rc, out = e2v.sh([os.path.join(src, "e2fsck/e2fsck"), "-fy", img], env=env, timeout=300)
-    recipe = {"base": name, "mke2fs": opts, "operators": desc, "case_index": idx}
+    recipe = {"base": name, "mke2fs": opts, "operators": desc, "case_index": idx, "groups": Fs(base).groups_count}
     problems = []
     if rc & ~3 or rc < 0:
         problems.append("e2fsck -fy exits %d" % rc)
@@ -246,7 +254,8 @@ def run(res, replay=None):
     res.add_obligation("packing model = rebuilt directories", not drifts)
     def sig(recipe):
         ops = " ".join(recipe.get("operators", []))
-        if "superblock checksum field damaged" in ops and "-g" in recipe.get("mke2fs", []):
+        # no backup superblock where e2fsck looks for one: non-default group size, or a single group
+        if "superblock checksum field damaged" in ops and ("-g" in recipe.get("mke2fs", []) or recipe.get("groups") == 1):
             return "c05:sb-csum-damaged-nondefault-group-size"
         return "c05:" + hashlib.sha256(json.dumps(recipe).encode()).hexdigest()[:12]
     bad.sort(key=lambda x: 1 if sig(x[0]).startswith("c05:sb-") else 0)
